@@ -10,5 +10,5 @@ def rule(rule_id, doc):
 
 
 def load_all():
-    from . import election  # noqa
+    from . import election, raftlog, callbacks  # noqa
     return REGISTRY
